@@ -1,6 +1,7 @@
 (* C05, for every text: the tokens of the exact lexer tile the CR-folded text and end with EOF. *)
-From InfluxQL Require Import Base.Prelude Lex.Token Lex.Reader Lex.Scanner Proofs.LexerSafety.
-From InfluxQL Require Import Lex.StreamLex Proofs.RingAt Proofs.RingRefine Proofs.StreamTile.
+From InfluxQL Require Import Base.Prelude Lex.Token Lex.Reader Lex.Scanner Proofs.LexerSafety Proofs.LexBounded.
+From InfluxQL Require Import Lex.StreamLex.
+From InfluxQL Require Import Proofs.RingAt Proofs.RingRefine Proofs.StreamTile.
 
 Definition nz (t : text) : Prop := Forall (fun c => c <> 0) t.
 
@@ -113,14 +114,14 @@ Proof.
 Qed.
 
 (* the exact lexer yields the same tokens and literals, for any fuel *)
-Theorem ring_scan_all f : forall r t acc, at_ r t -> r_n r <= 2 ->
+Theorem ring_scan_all T f : forall r t acc, at_ T r t -> r_n r <= 2 ->
   map tl_of (fst (scan_all ulower f r acc)) = rev (map tl_of acc) ++ map fst (s_scan_all f t).
 Proof.
   induction f as [|f IH]; intros r t acc H Hn; cbn [scan_all s_scan_all].
   - cbn. rewrite map_rev, app_nil_r. reflexivity.
-  - destruct (ref_scan ulower r t H Hn) as [Et Ha].
+  - destruct (ref_scan T ulower r t H Hn) as (Et & Ha & _).
     assert (Hn' : r_n (snd (scan ulower r)) <= 2).
-    { pose proof (rb_scan ulower r) as Hb. destruct (at_rb _ _ H) as (B1 & B2 & B3).
+    { pose proof (rb_scan ulower r) as Hb. destruct (at_rb _ _ _ H) as (B1 & B2 & B3).
       assert (rb 2 r) as Hr2 by (unfold rb; repeat split; try assumption; lia). destruct (Hb Hr2) as (_ & _ & ?). lia. }
     destruct (scan ulower r) as [[[tok p] lit] r1]. destruct (s_scan ulower t) as [[tok' lit'] t']. cbn [tl_of fst snd] in *.
     injection Et as <- <-.
@@ -129,6 +130,102 @@ Proof.
     { rewrite (IH r1 t' _ Ha Hn'). cbn [map rev tl_of fst snd]. rewrite <- app_assoc. reflexivity. }
     destruct tok; try exact Hgo.
     cbv beta iota zeta. cbn [fst]. rewrite map_rev. cbn [map rev tl_of fst snd]. reflexivity.
+Qed.
+
+(* the token list without the accumulator *)
+Fixpoint scan_list (f : nat) (r : reader) : list tokres :=
+  match f with
+  | O => []
+  | S f' =>
+      let '((tok, p, lit), r1) := scan ulower r in
+      match tok with EOF => [(tok, p, lit)] | _ => (tok, p, lit) :: scan_list f' r1 end
+  end.
+Lemma scan_all_list f : forall r acc, fst (scan_all ulower f r acc) = rev acc ++ scan_list f r.
+Proof.
+  induction f as [|f IH]; intros r acc; cbn [scan_all scan_list]; [cbn; rewrite app_nil_r; reflexivity|].
+  destruct (scan ulower r) as [[[tok p] lit] r1].
+  assert (Hgo : fst (scan_all ulower f r1 ((tok, p, lit) :: acc)) = rev acc ++ (tok, p, lit) :: scan_list f r1)
+    by (rewrite IH; cbn [rev]; rewrite <- app_assoc; reflexivity).
+  destruct tok; try exact Hgo. cbn [fst rev]. reflexivity.
+Qed.
+
+(* line and column of the k-th rune *)
+Definition lc (T : text) (k : nat) : pos := linecol_from pos0 T k.
+Definition adv (p : pos) (c : Z) : pos := if c =? 10 then mkPos (p_line p + 1) 0 else mkPos (p_line p) (p_char p + 1).
+Lemma linecol_snoc : forall (T : text) k p, (k < length T)%nat -> linecol_from p T (S k) = adv (linecol_from p T k) (nth k T 0).
+Proof.
+  induction T as [|c T IH]; intros k p Hk; [cbn in Hk; lia|]. destruct k as [|k].
+  - cbn. destruct T; reflexivity.
+  - cbn [linecol_from nth]. apply IH. cbn in Hk. lia.
+Qed.
+Lemma pst_lc T : nz T -> forall k, (k <= length T)%nat -> pst T k = (lc T k, false).
+Proof.
+  intros Hz. induction k as [|k IH]; intros Hk; [unfold lc; destruct T; reflexivity|]. rewrite pst_S, (IH ltac:(lia)). cbn [fst snd negb].
+  assert (Hc : nth k T 0 <> 0) by (unfold nz in Hz; rewrite Forall_forall in Hz; apply Hz, nth_In; lia).
+  destruct (Z.eqb_spec (nth k T 0) 0) as [|_]; [contradiction|]. cbn [orb]. f_equal.
+  unfold lc. rewrite (linecol_snoc T k pos0) by lia. unfold adv. destruct (nth k T 0 =? 10); reflexivity.
+Qed.
+
+(* in a NUL-free text the slot in front of a non-empty remaining text is the slot at that offset *)
+Lemma slot_at_offset T pre t a : nz T -> T = pre ++ t -> t <> [] -> slot_at T t a -> snd a = lc T (length pre).
+Proof.
+  intros Hz ET Hne (k & Ek & ->). unfold A. cbn [snd].
+  assert (Hk : skipn k T = t).
+  { rewrite Ek. symmetry. apply nz_canon. apply (nz_suffix (skipn k T) T); [|exact Hz].
+    exists (firstn k T). symmetry. apply firstn_skipn. }
+  assert (k = length pre).
+  { assert (length (skipn k T) = length t) by (rewrite Hk; reflexivity). rewrite skipn_length in H.
+    rewrite ET in H. rewrite app_length in H. destruct t; [contradiction|]. cbn in H. lia. }
+  subst k. rewrite pst_lc; [reflexivity|exact Hz|rewrite ET, app_length; lia].
+Qed.
+
+(* one token of a non-empty NUL-free text: not EOF, a non-empty extent in front of the rest *)
+Lemma s_scan_split t tok lit t' : nz t -> t <> [] -> s_scan ulower t = ((tok, lit), t') ->
+  tok <> EOF /\ t = firstn (length t - length t') t ++ t' /\ firstn (length t - length t') t <> [] /\ nz t' /\ (length t' < length t)%nat.
+Proof.
+  intros Hz Hne Es. pose proof (s_scan_progress ulower t (nz_canon _ Hz)) as P. pose proof (s_scan_eof t) as Ee.
+  rewrite Es in P, Ee. cbn [fst snd] in *. destruct t as [|c t1]; [contradiction|]. cbn [sread fst snd] in *.
+  assert (Hc : c <> 0) by (inversion Hz; assumption).
+  destruct P as [p Ep]. assert (Et : c :: t1 = (c :: p) ++ t') by (rewrite Ep; reflexivity).
+  assert (Hext : firstn (length (c :: t1) - length t') (c :: t1) = c :: p) by (rewrite Et; apply firstn_suffix).
+  split; [intros ->; apply Hc; apply Ee; reflexivity|]. rewrite Hext. split; [exact Et|]. split; [discriminate|].
+  split; [apply (nz_suffix t' (c :: t1)); [exists (c :: p); exact Et|exact Hz]|].
+  rewrite Et, app_length. cbn. lia.
+Qed.
+
+(* C05, positions: in a NUL-free text every token that is not string-like and not EOF carries the line and column
+   of the first rune of its extent *)
+Theorem positions T f : nz T -> forall r t pre, at_ T r t -> r_n r <= 2 -> T = pre ++ t ->
+  forall i tok pos lit, nth_error (scan_list f r) i = Some (tok, pos, lit) -> strtok tok = false -> tok <> EOF ->
+  pos = lc T (length pre + length (concat (map snd (firstn i (s_scan_all f t))))).
+Proof.
+  intros Hz. induction f as [|f IH]; intros r t pre H Hn ET i tok pos lit Hi Hs Hne; [destruct i; discriminate Hi|].
+  cbn [scan_list s_scan_all] in *.
+  destruct (ref_scan T ulower r t H Hn) as (Et & Ha & Hpos).
+  assert (Hn' : r_n (snd (scan ulower r)) <= 2).
+  { pose proof (rb_scan ulower r) as Hb. destruct (at_rb _ _ _ H) as (B1 & B2 & B3).
+    assert (rb 2 r) as Hr2 by (unfold rb; repeat split; try assumption; lia). destruct (Hb Hr2) as (_ & _ & ?). lia. }
+  assert (Hzt : nz t) by (apply (nz_suffix t T); [exists pre; exact ET|exact Hz]).
+  destruct (scan ulower r) as [[[tok0 p0] lit0] r1]. destruct (s_scan ulower t) as [[tok0' lit0'] t'] eqn:Es.
+  cbn [tl_of fst snd] in *. injection Et as <- <-.
+  destruct t as [|c t1].
+  - (* the end of the text: EOF *)
+    cbn in Es. injection Es as <- <- <-. destruct i as [|i]; [|destruct i; discriminate Hi].
+    cbn in Hi. injection Hi as <- <- <-. contradiction.
+  - destruct (s_scan_split (c :: t1) tok0 lit0 t' Hzt ltac:(discriminate) Es) as (Hne0 & Esp & Hext & Hzt' & Hlen).
+    match type of Hi with nth_error ?M _ = _ =>
+      assert (Hl : M = (tok0, p0, lit0) :: scan_list f r1) by (destruct tok0; try reflexivity; contradiction);
+      rewrite Hl in Hi; clear Hl end.
+    match goal with |- context [firstn i ?M] =>
+      assert (Hm : M = (tok0, lit0, firstn (length (c :: t1) - length t') (c :: t1)) :: s_scan_all f t')
+        by (destruct tok0; try reflexivity; contradiction); rewrite Hm; clear Hm end.
+    destruct i as [|i].
+    + cbn in Hi. injection Hi as <- <- <-. cbn [firstn map concat length]. rewrite Nat.add_0_r.
+      exact (slot_at_offset T pre (c :: t1) _ Hz ET ltac:(discriminate) (Hpos Hs)).
+    + cbn [nth_error] in Hi. cbn [firstn map concat snd]. rewrite app_length.
+      set (ext := firstn (length (c :: t1) - length t') (c :: t1)) in *.
+      rewrite (IH r1 t' (pre ++ ext) Ha Hn' ltac:(rewrite <- app_assoc, <- Esp; exact ET) i tok pos lit Hi Hs Hne).
+      f_equal. rewrite app_length. lia.
 Qed.
 End L.
 
@@ -155,6 +252,19 @@ Proof.
   intros Hz. pose proof (nz_fold_cr s Hz) as Hf. pose proof (nz_canon _ Hf) as Hc.
   pose proof (at_new s) as Ha. rewrite Hc in Ha.
   exists (s_scan_all ulower (S (length (fold_cr s))) (fold_cr s)). split.
-  - rewrite (ring_scan_all ulower _ _ (fold_cr s) [] Ha); [reflexivity|cbn; lia].
+  - rewrite (ring_scan_all ulower (fold_cr s) _ _ (fold_cr s) [] Ha); [reflexivity|cbn; lia].
   - apply s_tiles; [exact Hf|lia].
+Qed.
+
+(* C05 positions for the exact lexer on every NUL-free text: token i, unless string-like or EOF, reports the line
+   and column of the first rune of its extent, i.e. of the rune behind the extents of tokens 0..i-1 *)
+Theorem lexer_positions ulower s : nz s ->
+  forall i tok pos lit,
+    nth_error (fst (scan_all ulower (S (length (fold_cr s))) (new_reader s) [])) i = Some (tok, pos, lit) ->
+    strtok tok = false -> tok <> EOF ->
+    pos = lc (fold_cr s) (length (concat (map snd (firstn i (s_scan_all ulower (S (length (fold_cr s))) (fold_cr s)))))).
+Proof.
+  intros Hz i tok pos lit Hi Hs Hne. pose proof (nz_fold_cr s Hz) as Hf. pose proof (nz_canon _ Hf) as Hc.
+  pose proof (at_new s) as Ha. rewrite Hc in Ha. rewrite scan_all_list in Hi. cbn [rev app] in Hi.
+  exact (positions ulower (fold_cr s) _ Hf (new_reader s) (fold_cr s) [] Ha ltac:(cbn; lia) eq_refl i tok pos lit Hi Hs Hne).
 Qed.
